@@ -1,21 +1,33 @@
 (* C11 - batch results align with inputs and do not depend on batch history.  Property theorems only. *)
 From Coq Require Import List ZArith Bool Arith.
 Import ListNotations.
-Require Import Cat CatFacts Tree GramPrims AStar AStarImpl AStarEquiv AStarEquivTables Glue GlueProofs GlueMemo GlueMemoProofs.
+Require Import Cat CatFacts Tree GramPrims AStar AStarImpl AStarEquiv AStarEquivOn AStarEquivTables Glue GlueProofs GlueMemo GlueMemoProofs
+               GlueMemoSearch GlueMemoSearchProofs Filter GlueMemoRun GlueMemoRunProofs.
 
 (* ---------- (a) chunking and collection (parsing.py) ---------- *)
-(* contiguous chunks: concatenating the chunks gives the batch back, whatever the number of worker processes *)
-Theorem C11_chunks_concat : forall (A : Type) (l : list A) k, concat (chunks l k) = l.
-Proof. intros A l k. apply chunks_concat. Qed.
+(* _chunks as Python evaluates it (GlueMemo.chunks_py; None = the ValueError of range(0, 0, 0)): it raises exactly on the
+   empty list *)
+Theorem C11_chunks_error_iff_empty : forall (A : Type) (l : list A) k, chunks_py l k = None <-> l = [].
+Proof. intros A l k. apply chunks_py_error_iff. Qed.
 
-Theorem C11_chunks_nonempty : forall (A : Type) (l : list A) k c, In c (chunks l k) -> c <> [].
-Proof. intros A l k c. apply chunks_nonempty. Qed.
+(* contiguous chunks: concatenating the chunks gives the batch back, whatever the number of worker processes; no chunk
+   is empty and there is at least one *)
+Theorem C11_chunks_concat : forall (A : Type) (l : list A) k cs, chunks_py l k = Some cs ->
+  l <> [] /\ concat cs = l /\ (forall c, In c cs -> c <> []) /\ cs <> [].
+Proof. intros A l k cs. apply chunks_py_spec. Qed.
+
+Theorem C11_chunks_total : forall (A : Type) (l : list A) k, l <> [] -> exists cs, chunks_py l k = Some cs.
+Proof. intros A l k. apply chunks_py_total. Qed.
+
+(* never more chunks (tasks) than max(num_chunks, 1) *)
+Theorem C11_chunks_at_most_num_chunks : forall (A : Type) (l : list A) k cs, chunks_py l k = Some cs -> length cs <= Nat.max k 1.
+Proof. intros A l k cs. apply chunks_py_count. Qed.
 
 (* the results collected task by task (task.get() in task order - completion order plays no role) are the per-sentence
    results in input order, for every chunk count *)
-Theorem C11_collect_in_order : forall (A B : Type) (parse : A -> B) (batch : list A) k,
-  concat (map (map parse) (chunks batch k)) = map parse batch.
-Proof. intros A B parse batch k. apply collect_in_order. Qed.
+Theorem C11_collect_in_order : forall (A B : Type) (parse : A -> B) (batch : list A) k cs, chunks_py batch k = Some cs ->
+  concat (map (map parse) cs) = map parse batch.
+Proof. intros A B parse batch k cs. apply collect_in_order_py. Qed.
 
 (* ---------- (b) the memo layer: category table + rule cache (parsing.pyx, parsing.h) ---------- *)
 (* every lookup (hit or miss) preserves coherence; the old table is a prefix of the new one; earlier ids keep their
@@ -148,16 +160,290 @@ Theorem C11_failure_is_local : forall gbin gun (S R : Type) slen (placeholder : 
                       (snd (search s sti) = None -> r = [placeholder])) sents rs.
 Proof. exact failure_is_local. Qed.
 
-(* composition, conditional: IF a sentence's decoded outcome is the same from every coherent memo state (which is what
-   C11_search_independent_of_ids with C11_memo_transparent say about the search; the premise is kept explicit because
-   the search inside run_loop is abstract), THEN the batch result is sentence by sentence the result of parsing alone *)
-Theorem C11_batch_equals_alone_if_search_is_state_independent :
-  forall gbin gun (S R : Type) slen (placeholder : R) search max_length (sents : list S) st0 st rs st',
-  (forall s st1 st2, coherent gbin gun st1 -> coherent gbin gun st2 -> snd (search s st1) = snd (search s st2)) ->
-  coherent gbin gun st0 -> coherent gbin gun st ->
-  run_loop gbin gun S R slen placeholder search max_length sents st = Some (rs, st') ->
-  rs = map (fun s => sentence_result S R slen placeholder search max_length s st0) sents.
-Proof. exact batch_equals_alone. Qed.
+(* ---------- (e) the search reading the memo incrementally = the search over the categories themselves ---------- *)
+(* start_ok: the memo states a sentence can start from - coherent, the input category list is a prefix of the table, the
+   root ids name the roots.  The initial state of a call is one, and so is every state any sequence of lookups leads to
+   (i.e. whatever earlier sentences did). *)
+Theorem C11_every_history_is_admissible : forall gbin gun cats roots os st, NoDup cats ->
+  memo_ops gbin gun os (init_state cats roots) = Some st -> start_ok gbin gun cats roots (root_ids cats roots) st.
+Proof. exact start_ok_reached. Qed.
+
+(* what a lookup hands to the search in a coherent state, hit or miss, IS the id-level grammar induced by the table T of
+   any later moment: bin_T T x y = the grammar's results for T[x], T[y] with every result category replaced by its id in T *)
+Theorem C11_memo_answer_is_table_grammar : forall gbin gun o st e st1 T, coherent gbin gun st ->
+  memo_step gbin gun o st = Some (e, st1) -> NoDup T -> (exists u, T = mtable st1 ++ u) ->
+  match o with OBin x y => id_view e = bin_T gbin T x y | OUn x => map fst e = un_T gun T x end.
+Proof. exact memo_answer_is_table_grammar. Qed.
+
+(* ... in particular by the table the call ends with; and the cached vector is still the same then *)
+Theorem C11_memo_answer_is_final_table_grammar : forall gbin gun o os st e st1 st2, coherent gbin gun st ->
+  memo_step gbin gun o st = Some (e, st1) -> memo_ops gbin gun os st1 = Some st2 ->
+  cache_find (key_of o) (mcache st2) = Some e /\
+  match o with OBin x y => id_view e = bin_T gbin (mtable st2) x y | OUn x => map fst e = un_T gun (mtable st2) x end.
+Proof. exact memo_answer_is_final_table_grammar. Qed.
+
+(* lookups on ids of the table never fail, however much the table grows in between (no IndexError in a callback) *)
+Theorem C11_lookups_total : forall gbin gun os st, coherent gbin gun st ->
+  (forall o, In o os -> op_in_range (mtable st) o) -> exists st', memo_ops gbin gun os st = Some st'.
+Proof. exact memo_ops_total. Qed.
+
+(* one loop iteration under the memo (any order of this iteration's lookups) = one iteration of the category-level
+   search, ids read through the table after the iteration *)
+Theorem C11_memo_search_step : forall gbin gun cats roots rids pen dedup (s : sent) st st' a ac js jsc ks,
+  start_ok gbin gun cats roots rids st -> srel (names (mtable st)) js jsc -> irel (names (mtable st)) a ac ->
+  (forall k, In k ks <-> In k (needed dedup s a js)) -> memo_ops gbin gun ks st = Some st' ->
+  start_ok gbin gun cats roots rids st' /\ (exists u, mtable st' = mtable st ++ u) /\
+  srel (names (mtable st')) (mstep_js rids pen dedup s st' a js) (cstep gbin gun roots pen dedup s ac jsc).
+Proof. exact mstep_rel. Qed.
+
+(* every run of the search under the memo, started in any admissible memo state, is a run of the category-level
+   search: related agenda, chart, goal (same shapes, rule indices, head flags, scores; every id names the category) *)
+Theorem C11_memo_search_is_category_search : forall gbin gun cats roots rids pen dedup max_step nbest (s : sent),
+  lex_ok cats s -> forall st0 p, start_ok gbin gun cats roots rids st0 ->
+  mreach gbin gun rids pen dedup max_step nbest s st0 p ->
+  start_ok gbin gun cats roots rids (snd p) /\ (exists u, mtable (snd p) = mtable st0 ++ u) /\
+  exists jsc, creach gbin gun cats roots pen dedup max_step nbest s jsc /\ srel (names (mtable (snd p))) (fst p) jsc.
+Proof. exact mreach_to_cat. Qed.
+
+(* the domain invariant: every item of a reachable state decodes through the table of that moment *)
+Theorem C11_reachable_ids_are_table_ids : forall gbin gun cats roots rids pen dedup max_step nbest (s : sent),
+  lex_ok cats s -> forall st0 js st, start_ok gbin gun cats roots rids st0 ->
+  mreach gbin gun rids pen dedup max_step nbest s st0 (js, st) ->
+  forall a, In a (jagenda js) \/ In a (jchart js) \/ In a (jgoal js) ->
+  jcat a < length (mtable st) /\ exists ac, jdecode (mtable st) a = Some ac.
+Proof. exact mreach_items_in_table. Qed.
+
+(* conversely every run of the category-level search is realised from every admissible memo state *)
+Theorem C11_category_search_realised_after_any_history : forall gbin gun cats roots rids pen dedup max_step nbest (s : sent),
+  lex_ok cats s -> forall st0 jsc, start_ok gbin gun cats roots rids st0 ->
+  creach gbin gun cats roots pen dedup max_step nbest s jsc ->
+  exists js st, mreach gbin gun rids pen dedup max_step nbest s st0 (js, st) /\ start_ok gbin gun cats roots rids st /\
+                (exists u, mtable st = mtable st0 ++ u) /\ srel (names (mtable st)) js jsc.
+Proof. exact cat_to_mreach. Qed.
+
+(* THE SAME SENTENCE AFTER TWO HISTORIES (scores, beam, configuration equal; st1, st2 any two admissible memo states,
+   e.g. cold start vs. after other sentences): every finished run from st1 has a finished run from st2 and a finished
+   run of the category-level search with the same status; the results handed to the finalizer decode - each through
+   its own table - to the very same list of category-level items (categories, rule indices, head flags, every score),
+   so they are position-wise related by "names the same category", and the sentence outcomes are equal *)
+Theorem C11_same_sentence_same_result_under_any_history : forall gbin gun cats roots rids pen dedup max_step nbest (s : sent),
+  lex_ok cats s -> forall st1 st2 js1 st1', start_ok gbin gun cats roots rids st1 -> start_ok gbin gun cats roots rids st2 ->
+  mreach gbin gun rids pen dedup max_step nbest s st1 (js1, st1') -> ~ jrunning max_step nbest js1 ->
+  exists js2 st2' jsc,
+    mreach gbin gun rids pen dedup max_step nbest s st2 (js2, st2') /\ ~ jrunning max_step nbest js2 /\
+    creach gbin gun cats roots pen dedup max_step nbest s jsc /\ ~ jrunning max_step nbest jsc /\
+    jstatus js1 = jstatus js2 /\ jstatus js1 = jstatus jsc /\
+    decode_items (mtable st1') (jresult js1) = Some (jresult jsc) /\
+    decode_items (mtable st2') (jresult js2) = Some (jresult jsc) /\
+    Forall2 (irel (same_cat (mtable st1') (mtable st2'))) (jresult js1) (jresult js2) /\
+    sentence_outcome js1 (mtable st1') = sentence_outcome js2 (mtable st2').
+Proof. exact same_sentence_any_history. Qed.
+
+(* a run under the memo is a run of the pure search AStarImpl.jreach over the ids of any later table T (e.g. the final
+   one) with the grammar T induces, and all its expansions use keys whose results T contains *)
+Theorem C11_memo_search_is_table_search : forall gbin gun rids pen dedup max_step nbest (s : sent) st0 p,
+  coherent gbin gun st0 -> mreach gbin gun rids pen dedup max_step nbest s st0 p ->
+  coherent gbin gun (snd p) /\ (exists u, mtable (snd p) = mtable st0 ++ u) /\
+  forall T, NoDup T -> (exists u, T = mtable (snd p) ++ u) ->
+    jreach_on Nat.eqb (s_n s) (s_dep s) (s_besttag s) (s_bestdep s) (isroot_ids rids) pen dedup (s_tag s) (s_adm s)
+              (bin_T gbin T) (un_T gun T) max_step nbest (closed_bin gbin T) (closed_un gun T) (fst p).
+Proof. exact mreach_is_table_run. Qed.
+
+Theorem C11_runs_in_a_domain_are_runs : forall (C : Type) ceqb n dep besttag bestdep (isroot : C -> bool) pen dedup tag adm bin un max_step nbest UB UU st,
+  jreach_on ceqb n dep besttag bestdep isroot pen dedup tag adm bin un max_step nbest UB UU st ->
+  jreach ceqb n tag dep adm besttag bestdep bin un isroot pen dedup max_step nbest st.
+Proof. exact @jreach_on_jreach. Qed.
+
+(* ---------- (f) ids under two tables: the hypotheses of the simulation, on the ids that occur ---------- *)
+(* T1, T2 duplicate-free (think: the table of a cold call vs. the table after other sentences), R i j := T1[i] = T2[j].
+   Equality tests: C11_table_ids_are_biunique above.  Rule results: related position-wise, head flags equal, for every
+   pair whose results both tables contain; root tests; admitted lexical ids and tag scores *)
+Theorem C11_tables_rule_results_related : forall gbin T1 T2 a a' b b', same_cat T1 T2 a a' -> same_cat T1 T2 b b' ->
+  both_closed_bin gbin T1 T2 a b -> res_rel (same_cat T1 T2) (bin_T gbin T1 a b) (bin_T gbin T2 a' b').
+Proof. exact tables_R_bin. Qed.
+Theorem C11_tables_unary_results_related : forall gun T1 T2 a a', same_cat T1 T2 a a' -> both_closed_un gun T1 T2 a ->
+  Forall2 (same_cat T1 T2) (un_T gun T1 a) (un_T gun T2 a').
+Proof. exact tables_R_un. Qed.
+Theorem C11_tables_root_tests_agree : forall T1 T2, NoDup T1 -> NoDup T2 -> forall roots rids1 rids2 a a',
+  Forall2 (names T1) rids1 roots -> Forall2 (names T2) rids2 roots -> same_cat T1 T2 a a' -> isroot_ids rids1 a = isroot_ids rids2 a'.
+Proof. exact tables_R_root. Qed.
+Theorem C11_tables_lexical_ids_related : forall T1 T2, NoDup T1 -> NoDup T2 -> forall cats (s : sent) i,
+  (exists u, T1 = cats ++ u) -> (exists u, T2 = cats ++ u) -> lex_ok cats s ->
+  Forall2 (fun c c' => same_cat T1 T2 c c' /\ s_tag s i c = s_tag s i c') (s_adm s i) (s_adm s i).
+Proof. exact tables_R_adm. Qed.
+
+(* the domain-restricted simulation: like C11_search_independent_of_ids, but the rule-result hypotheses are needed only
+   on a domain UB / UU of keys, for runs all of whose expansions stay in that domain *)
+Theorem C11_search_independent_of_ids_on_domain : forall (C C' : Type) (ceqb : C -> C -> bool) (ceqb' : C' -> C' -> bool) n dep besttag bestdep
+    (isroot : C -> bool) (isroot' : C' -> bool) pen dedup (R : C -> C' -> Prop),
+  (forall a a' b b', R a a' -> R b b' -> ceqb a b = ceqb' a' b') ->
+  (forall a a', R a a' -> isroot a = isroot' a') ->
+  forall (tag : nat -> C -> Z) (tag' : nat -> C' -> Z) (adm : nat -> list C) (adm' : nat -> list C')
+         (bin : C -> C -> list (C * bool)) (bin' : C' -> C' -> list (C' * bool)) (un : C -> list C) (un' : C' -> list C')
+         max_step nbest (UB : C -> C -> Prop) (UU : C -> Prop),
+  (forall a a' b b', R a a' -> R b b' -> UB a b -> res_rel R (bin a b) (bin' a' b')) ->
+  (forall a a', R a a' -> UU a -> Forall2 R (un a) (un' a')) ->
+  (forall i, Forall2 (fun c c' => R c c' /\ tag i c = tag' i c') (adm i) (adm' i)) ->
+  forall st, jreach_on ceqb n dep besttag bestdep isroot pen dedup tag adm bin un max_step nbest UB UU st ->
+  ~ jrunning max_step nbest st ->
+  exists st', jreach ceqb' n tag' dep adm' besttag bestdep bin' un' isroot' pen dedup max_step nbest st' /\
+              ~ jrunning max_step nbest st' /\ jstatus st = jstatus st' /\ Forall2 (irel R) (jresult st) (jresult st').
+Proof. exact @search_simulation_on. Qed.
+
+(* hence: a finished run over the ids of T1 that only combines keys whose results both tables contain has a twin over
+   the ids of T2 (pure searches with the table-induced grammars) *)
+Theorem C11_table_runs_correspond : forall gbin gun T1 T2, NoDup T1 -> NoDup T2 ->
+  forall cats roots rids1 rids2 pen dedup max_step nbest (s : sent) js1,
+  (exists u, T1 = cats ++ u) -> (exists u, T2 = cats ++ u) -> lex_ok cats s ->
+  Forall2 (names T1) rids1 roots -> Forall2 (names T2) rids2 roots ->
+  jreach_on Nat.eqb (s_n s) (s_dep s) (s_besttag s) (s_bestdep s) (isroot_ids rids1) pen dedup (s_tag s) (s_adm s)
+            (bin_T gbin T1) (un_T gun T1) max_step nbest (both_closed_bin gbin T1 T2) (both_closed_un gun T1 T2) js1 ->
+  ~ jrunning max_step nbest js1 ->
+  exists js2, treach gbin gun rids2 pen dedup max_step nbest s T2 js2 /\ ~ jrunning max_step nbest js2 /\
+              jstatus js1 = jstatus js2 /\ Forall2 (irel (same_cat T1 T2)) (jresult js1) (jresult js2).
+Proof. exact table_runs_correspond. Qed.
+
+(* ---------- (g) end to end: the loop of depccg._parsing.run over the search under the memo ---------- *)
+(* brun: sentence by sentence, too long => placeholder (None) and the memo untouched, otherwise a finished run of the
+   search from the memo state the previous sentences left, the outcome decoded through the table.
+   SOUND: from any admissible memo state, every result list is sentence by sentence an outcome of the category-level
+   search of that sentence alone (cat_outcome mentions no table, no cache, no position, no other sentence) *)
+Theorem C11_batch_results_are_category_level_outcomes : forall gbin gun cats roots rids pen dedup max_step nbest max_length ss st rs st',
+  Forall (lex_ok cats) ss -> start_ok gbin gun cats roots rids st ->
+  brun gbin gun rids pen dedup max_step nbest max_length ss st rs st' ->
+  start_ok gbin gun cats roots rids st' /\ Forall2 (cat_outcome gbin gun cats roots pen dedup max_step nbest max_length) ss rs.
+Proof. exact brun_sound. Qed.
+
+(* COMPLETE: every per-sentence choice of such outcomes is a result list of the batch, from every admissible state *)
+Theorem C11_category_level_outcomes_are_batch_results : forall gbin gun cats roots rids pen dedup max_step nbest max_length ss st rs,
+  Forall (lex_ok cats) ss -> start_ok gbin gun cats roots rids st ->
+  Forall2 (cat_outcome gbin gun cats roots pen dedup max_step nbest max_length) ss rs ->
+  exists st', brun gbin gun rids pen dedup max_step nbest max_length ss st rs st' /\ start_ok gbin gun cats roots rids st'.
+Proof. exact brun_complete. Qed.
+
+(* HISTORY INDEPENDENCE, unconditional: the result lists a batch can have are the same from every admissible memo state
+   (cold, warmed by any other sentences, any extension of the category table) *)
+Theorem C11_batch_result_independent_of_history : forall gbin gun cats roots rids pen dedup max_step nbest max_length ss sta stb rs sta',
+  Forall (lex_ok cats) ss -> start_ok gbin gun cats roots rids sta -> start_ok gbin gun cats roots rids stb ->
+  brun gbin gun rids pen dedup max_step nbest max_length ss sta rs sta' ->
+  exists stb', brun gbin gun rids pen dedup max_step nbest max_length ss stb rs stb'.
+Proof. exact brun_history_independent. Qed.
+
+(* BATCH = ALONE (this replaces the conditional theorem of the first version): rs is a result of the batch from state st
+   iff every rs[k] is a result of parsing sentence k alone from state st0 - e.g. st0 = the cold state of a fresh call.
+   Position, order, the other sentences of the batch (permutation, subset) do not occur on the right-hand side. *)
+Theorem C11_batch_equals_alone : forall gbin gun cats roots rids pen dedup max_step nbest max_length ss st st0 rs,
+  Forall (lex_ok cats) ss -> start_ok gbin gun cats roots rids st -> start_ok gbin gun cats roots rids st0 ->
+  ((exists st', brun gbin gun rids pen dedup max_step nbest max_length ss st rs st') <->
+   Forall2 (fun s r => exists st1, brun gbin gun rids pen dedup max_step nbest max_length [s] st0 [r] st1) ss rs).
+Proof. exact brun_iff_alone. Qed.
+
+Theorem C11_batch_results_align : forall gbin gun rids pen dedup max_step nbest max_length ss st rs st',
+  brun gbin gun rids pen dedup max_step nbest max_length ss st rs st' -> length rs = length ss.
+Proof. exact brun_length. Qed.
+
+(* ---------- (g') tie-breaking: pop rules that do not look at categories ---------- *)
+(* (g) speaks about the SET of possible results (the search model allows any maximal pop).  A pop policy is a function
+   from the history of category-blind agenda views (derivation shapes, rule indices, head flags, spans, heads, all
+   scores - every category erased) to the position of the item to pop.  parsing::operator< compares score() only and the
+   order of the pushes is a matter of token order, chart cell creation order, push_front order and rule result order,
+   so std::priority_queue is such a policy.  Under one such policy: *)
+(* the run under the memo and the category-level run proceed in lockstep, with the same history of views *)
+Theorem C11_policy_run_is_category_policy_run : forall gbin gun cats roots rids pen dedup max_step nbest (s : sent),
+  lex_ok cats s -> forall (policy : policy_t) st0 h p, start_ok gbin gun cats roots rids st0 ->
+  mreach_p gbin gun rids pen dedup max_step nbest s policy st0 h p ->
+  start_ok gbin gun cats roots rids (snd p) /\
+  exists jsc, creach_p gbin gun cats roots pen dedup max_step nbest s policy h jsc /\ srel (names (mtable (snd p))) (fst p) jsc.
+Proof. exact mreach_p_to_cat. Qed.
+
+Theorem C11_category_policy_run_realised_after_any_history : forall gbin gun cats roots rids pen dedup max_step nbest (s : sent),
+  lex_ok cats s -> forall (policy : policy_t) st0 h jsc, start_ok gbin gun cats roots rids st0 ->
+  creach_p gbin gun cats roots pen dedup max_step nbest s policy h jsc ->
+  exists js st, mreach_p gbin gun rids pen dedup max_step nbest s policy st0 h (js, st) /\
+                start_ok gbin gun cats roots rids st /\ srel (names (mtable st)) js jsc.
+Proof. exact cat_p_to_mreach. Qed.
+
+(* THE outcome of a sentence (not just the set of possible ones) is the same from any two admissible memo states *)
+Theorem C11_same_policy_same_outcome_under_any_history : forall gbin gun cats roots rids pen dedup max_step nbest (s : sent),
+  lex_ok cats s -> forall (policy : policy_t) st1 st2 h1 js1 st1' h2 js2 st2',
+  start_ok gbin gun cats roots rids st1 -> start_ok gbin gun cats roots rids st2 ->
+  mreach_p gbin gun rids pen dedup max_step nbest s policy st1 h1 (js1, st1') -> ~ jrunning max_step nbest js1 ->
+  mreach_p gbin gun rids pen dedup max_step nbest s policy st2 h2 (js2, st2') -> ~ jrunning max_step nbest js2 ->
+  sentence_outcome js1 (mtable st1') = sentence_outcome js2 (mtable st2') /\
+  exists r, sentence_outcome js1 (mtable st1') = Some r.
+Proof. exact policy_outcome_unique. Qed.
+
+(* the loop of run is then a function of the batch: two executions, from any two admissible memo states, return the
+   same result list; and a policy-driven execution is an execution in the sense of (g) *)
+Theorem C11_batch_deterministic_under_category_blind_policy : forall gbin gun cats roots rids pen dedup max_step nbest max_length
+    (policy : policy_t) ss sta stb rsa rsb sta' stb',
+  Forall (lex_ok cats) ss -> start_ok gbin gun cats roots rids sta -> start_ok gbin gun cats roots rids stb ->
+  brun_p gbin gun rids pen dedup max_step nbest max_length policy ss sta rsa sta' ->
+  brun_p gbin gun rids pen dedup max_step nbest max_length policy ss stb rsb stb' -> rsa = rsb.
+Proof. exact brun_p_deterministic. Qed.
+
+Theorem C11_policy_batch_is_a_batch : forall gbin gun rids pen dedup max_step nbest max_length (policy : policy_t) ss st rs st',
+  brun_p gbin gun rids pen dedup max_step nbest max_length policy ss st rs st' ->
+  brun gbin gun rids pen dedup max_step nbest max_length ss st rs st'.
+Proof. exact brun_p_brun. Qed.
+
+(* ---------- (h) the wrapper depccg.parsing.run (parsing.py): shapes first, chunked = unchunked ---------- *)
+(* property part (d): if _type_check fails, the result of run is that exception, for EVERY parser: the parser
+   (depccg._parsing.run, the parameter inner) is not consulted - nothing is parsed *)
+Theorem C11_shape_mismatch_rejected_before_parsing : forall (E R : Type) ntags d s e mcs procs,
+  type_check ntags d s = Err e -> forall inner, run E R inner ntags d s mcs procs = RErr (RType e).
+Proof. exact run_type_error_first. Qed.
+
+Theorem C11_rejected_input_never_reaches_the_parser : forall (E R : Type) ntags d s e mcs procs,
+  type_check ntags d s = Err e -> forall inner1 inner2, run E R inner1 ntags d s mcs procs = run E R inner2 ntags d s mcs procs.
+Proof. exact run_rejected_parser_irrelevant. Qed.
+
+Theorem C11_shape_error_only_from_type_check : forall (E R : Type) ntags d s mcs procs inner e,
+  run E R inner ntags d s mcs procs = RErr (RType e) -> type_check ntags d s = Err e.
+Proof. exact run_type_error_only. Qed.
+
+(* score_results[0] after _type_check and range(0, 0, 0) in _chunks cannot happen inside run *)
+Theorem C11_run_dead_exceptions : forall (E R : Type) ntags d s mcs procs inner,
+  run E R inner ntags d s mcs procs <> RErr RScores0 /\ run E R inner ntags d s mcs procs <> RErr RChunks.
+Proof. exact run_dead_exceptions. Qed.
+
+(* a batch longer than max_chunk_size with processes < 1: ValueError of Pool, again before any parsing *)
+Theorem C11_pool_rejects_nonpositive_processes : forall (E R : Type) ntags d s docs scs mcs procs,
+  type_check ntags d s = Ok (docs, scs) -> (mcs < Z.of_nat (length docs))%Z -> (procs < 1)%Z ->
+  forall inner, run E R inner ntags d s mcs procs = RErr RPool.
+Proof. exact run_pool_error. Qed.
+
+(* for well-typed input and a parser that works sentence by sentence, the chunked branch returns exactly what the
+   unchunked one returns: one result per sentence in input order (or the parser's up-front exception in both) *)
+Theorem C11_chunked_equals_unchunked : forall (E R : Type) inner pre parse ntags d s docs scs mcs procs,
+  per_sentence E R inner pre parse -> type_check ntags d s = Ok (docs, scs) ->
+  ((Z.of_nat (length docs) <= mcs)%Z \/ (1 <= procs)%Z) ->
+  run E R inner ntags d s mcs procs =
+    match pre ntags with Some e => RErr (RInner e) | None => ROk (map (parse ntags) (combine docs scs)) end.
+Proof. exact run_chunked_equals_unchunked. Qed.
+
+Theorem C11_schedule_independent : forall (E R : Type) inner pre parse ntags d s docs scs mcs1 procs1 mcs2 procs2,
+  per_sentence E R inner pre parse -> type_check ntags d s = Ok (docs, scs) -> (1 <= procs1)%Z -> (1 <= procs2)%Z ->
+  run E R inner ntags d s mcs1 procs1 = run E R inner ntags d s mcs2 procs2.
+Proof. exact run_schedule_independent. Qed.
+
+(* What remains outside the theorems (named precisely):
+   (1) per_sentence is a hypothesis about depccg._parsing.run as a FUNCTION.  (g) gives: the set of possible results of its
+       loop is per sentence and state independent; (g') gives: under any category-blind pop policy the result is a function
+       of the sentence.  That libstdc++'s std::priority_queue IS such a policy (its choice depends only on the sequence of
+       pushed/popped priorities) is read off parsing::operator< and the push loops, not derived from libstdc++'s source;
+       the oracle of harness/props/c11.py exercises it on score rows with exact ties (and catches seeded change C11_b,
+       which makes operator< look at the category id).
+   (2) multiprocessing (fork, pickling, completion order) is represented by its specification in GlueMemoRun.run (tasks
+       evaluated independently, collected in task order, first exception wins); the correspondence runs the real Pool.
+   (3) mreach allows any order of the lookups within one loop iteration (which covers the order of parse_sentence);
+       the tie of mreach to the C++ is the composition of the existing ties: AStarImpl.jstep <- pop-trace validation
+       (C01/C02/C09/C10/C16), GlueMemo.memo_step <- replay of the recorded rule-function invocations (this check); there
+       is no separate differential run of mreach itself.
+   (4) trees: outcomes are the items handed to the finalizer (derivation over categories, rule indices, head flags, all
+       scores); the labels retrieve_tree reads from the cache are covered by C11_cached_answer_stable and C12, the
+       composition into "equal Tree objects" is not stated in Coq (the oracle compares the Tree objects).
+   (5) float32 rounding: scores are Z (exact-grid tie, as everywhere in the A* theorems). *)
 
 (* ---------- the hypotheses are satisfiable by non-trivial values ---------- *)
 (* the same toy grammar under two different id assignments satisfies every hypothesis of the simulation, so each
@@ -193,3 +479,79 @@ Proof. vm_compute. repeat split; reflexivity. Qed.
 
 Example ex_c11_nodup : NoDup [ex_A; ex_B].
 Proof. repeat constructor; simpl; intuition discriminate. Qed.
+
+(* ---------- examples for (e)-(h) ---------- *)
+(* a grammar that creates categories: A B -> S | A/B ; A/B B -> S ; B B -> B/B.  Input list [A; B], root S (not in the list).
+   "B B" has no parse but puts B/B into the table; in "A B B" the ids of A/B and B/B are then 4 and 3, after a cold
+   start 3 and 4 *)
+Definition ex_BB := Fun ex_B [47%N] ex_B.
+Definition ex_mk2 c h := {| rcat := c; op_string := [102%N]; op_symbol := [62%N]; head_is_left := h |}.
+Definition ex2_gbin (x y : cat) : list cres :=
+  if cat_eqb x ex_A && cat_eqb y ex_B then [ex_mk2 ex_S true; ex_mk2 ex_AB false]
+  else if cat_eqb x ex_AB && cat_eqb y ex_B then [ex_mk2 ex_S true]
+  else if cat_eqb x ex_B && cat_eqb y ex_B then [ex_mk2 ex_BB true] else [].
+Definition ex2_gun (x : cat) : list cres := [].
+Definition ex2_cats := [ex_A; ex_B].
+Definition ex2_roots := [ex_S].
+Definition ex2_sent (n : nat) (adm : nat -> list nat) : sent :=
+  {| s_n := n; s_tag := fun i j => (- Z.of_nat (i + j))%Z; s_dep := fun _ _ => 0%Z; s_adm := adm;
+     s_besttag := fun _ => 0%Z; s_bestdep := fun _ => 0%Z |}.
+Definition ex_s_BB := ex2_sent 2 (fun _ => [1]).
+Definition ex_s_ABB := ex2_sent 3 (fun i => match i with 0 => [0] | _ => [1] end).
+Definition ex_s_long := ex2_sent 300 (fun _ => [0; 1]).
+Definition ex2_run (ss : list sent) :=
+  brun_f ex2_gbin ex2_gun (root_ids ex2_cats ex2_roots) 1%Z true 1000 1 250 100 ss (init_state ex2_cats ex2_roots).
+
+(* warmed vs. cold: the failing sentences yield the placeholder only, "A B B" has the same outcome in both calls although
+   the tables (and the id of A/B inside the returned derivation) differ *)
+Example ex_c11_history :
+  match ex2_run [ex_s_BB; ex_s_long; ex_s_ABB], ex2_run [ex_s_ABB] with
+  | Some ([r0; r1; r2], st), Some ([r2'], st') =>
+      r0 = None /\ r1 = None /\ r2 = r2' /\ r2 <> None /\
+      mtable st = [ex_A; ex_B; ex_S; ex_BB; ex_AB] /\ mtable st' = [ex_A; ex_B; ex_S; ex_AB; ex_BB]
+  | _, _ => False
+  end.
+Proof. vm_compute. split; [reflexivity|]. split; [reflexivity|]. split; [reflexivity|]. split; [discriminate|]. split; reflexivity. Qed.
+
+(* ... and these executions are runs in the sense of the theorems: brun is inhabited by a non-trivial batch, lex_ok and
+   start_ok hold for it *)
+Example ex_c11_batch_is_a_run : exists rs st,
+  brun ex2_gbin ex2_gun (root_ids ex2_cats ex2_roots) 1%Z true 1000 1 250 [ex_s_BB; ex_s_long; ex_s_ABB] (init_state ex2_cats ex2_roots) rs st /\
+  length rs = 3.
+Proof.
+  assert (H : exists rs st, ex2_run [ex_s_BB; ex_s_long; ex_s_ABB] = Some (rs, st) /\ length rs = 3).
+  { vm_compute. eexists; eexists; split; reflexivity. }
+  destruct H as (rs & st & H & Hl). exists rs, st. split; [exact (brun_f_sound _ _ _ _ _ _ _ _ _ _ _ _ _ H) | exact Hl].
+Qed.
+(* ... and runs under the category-blind policy "first item of maximal priority", so C11_batch_deterministic_... applies *)
+Example ex_c11_batch_is_a_policy_run : exists rs st,
+  brun_p ex2_gbin ex2_gun (root_ids ex2_cats ex2_roots) 1%Z true 1000 1 250 policy_first_max [ex_s_BB; ex_s_long; ex_s_ABB]
+         (init_state ex2_cats ex2_roots) rs st /\ nth_error rs 2 <> Some None.
+Proof.
+  assert (H : exists rs st, ex2_run [ex_s_BB; ex_s_long; ex_s_ABB] = Some (rs, st) /\ nth_error rs 2 <> Some None).
+  { vm_compute. eexists; eexists; split; [reflexivity | discriminate]. }
+  destruct H as (rs & st & H & Hl). exists rs, st. split; [exact (brun_f_sound_p _ _ _ _ _ _ _ _ _ _ _ _ _ H) | exact Hl].
+Qed.
+Example ex_c11_lex_ok : Forall (lex_ok ex2_cats) [ex_s_BB; ex_s_long; ex_s_ABB].
+Proof.
+  apply Forall_cons; [|apply Forall_cons; [|apply Forall_cons; [|apply Forall_nil]]]; intros i j Hin; simpl in Hin.
+  - destruct Hin as [<-|[]]. simpl. repeat constructor.
+  - destruct Hin as [<-|[<-|[]]]; simpl; repeat constructor.
+  - destruct i; destruct Hin as [<-|[]]; simpl; repeat constructor.
+Qed.
+Example ex_c11_start_ok : start_ok ex2_gbin ex2_gun ex2_cats ex2_roots (root_ids ex2_cats ex2_roots) (init_state ex2_cats ex2_roots).
+Proof. apply start_ok_init. exact ex_c11_nodup. Qed.
+
+(* the wrapper: three sentences, max_chunk_size 2, two processes => chunks of 2 and 1, process ids 0 and 1, results in
+   input order; the same input unchunked; a wrong dependency shape is a RuntimeError even with a parser that always raises *)
+Definition ex_w : word := [97%N].
+Definition ex_sc1 := mkSc (mkMat 3 [[0;0;0]]%Z) (mkMat 2 [[0;0]]%Z).
+Definition ex_sc2 := mkSc (mkMat 3 [[0;0;0];[0;0;0]]%Z) (mkMat 3 [[0;0;0];[0;0;0]]%Z).
+Definition ex_probe_run fails d s mcs procs := observe (run unit (nat * nat * nat * nat) (probe fails) 3 d s mcs procs).
+Example ex_c11_run_chunked :
+  ex_probe_run false (DocMany [[ex_w]; [ex_w; ex_w]; [ex_w]]) (ScMany [ex_sc1; ex_sc2; ex_sc1]) 2 2 = OOk [(0, 3, 2, 1); (0, 3, 2, 2); (1, 3, 1, 1)] /\
+  ex_probe_run false (DocMany [[ex_w]; [ex_w; ex_w]; [ex_w]]) (ScMany [ex_sc1; ex_sc2; ex_sc1]) 20 2 = OOk [(0, 3, 3, 1); (0, 3, 3, 2); (0, 3, 3, 1)] /\
+  ex_probe_run true (DocMany [[ex_w]; [ex_w]; [ex_w]]) (ScMany [ex_sc1; ex_sc2; ex_sc1]) 2 2 = OErr 2 /\
+  ex_probe_run false (DocMany [[ex_w]; [ex_w; ex_w]; [ex_w]]) (ScMany [ex_sc1; ex_sc2; ex_sc1]) 2 0 = OErr 3 /\
+  chunks_py (@nil nat) 2 = None /\ chunks_py [1; 2; 3; 4; 5] 2 = Some [[1; 2; 3]; [4; 5]].
+Proof. vm_compute. repeat split; reflexivity. Qed.
